@@ -68,7 +68,7 @@ PF_SIGMA = 6.0
 ESS_MIN = 200.0
 COND_MAX = 1e12        # beyond this the float64 recursion is not judged (counted)
 
-torch.set_default_dtype(torch.float64)
+# the process default dtype stays float32 (as in every user program): all float64 tensors of this check are created explicitly
 
 
 def T(a):
@@ -363,7 +363,7 @@ def call_filter(ck, monitor, regime, entry, flt, c, wit, t=None, ctor=False, **k
     if not ctor:
         args += (c["_Qt"] if "_Qt" in c else T(c["Q"]), c["_Rt"] if "_Rt" in c else T(c["R"]))
     if t is not None:
-        kw["t"] = torch.tensor(float(t))
+        kw["t"] = torch.tensor(float(t), dtype=torch.float64)
     return ck.call(monitor, regime, entry, lambda: flt(*args, **kw), witness=wit)
 
 
